@@ -23,39 +23,54 @@ PROP = "C06"
 INFO = dict(
     technique="Lean 4 proof over an explicit heap model of Copyable.copy and its four overrides (copy only allocates; "
               "the copy unfolds to the same tree; on heaps conforming to a well-formed attribute-kind table every "
-              "cell the copy owns is new) + landmark manager as a state machine with ownership invariant, by "
-              "induction over all histories; tables regenerated from the live classes with `decide` obligations; "
+              "cell the copy owns is new; copy terminates on acyclic heaps) + landmark manager as a state machine "
+              "with a ghost-tag ownership invariant, by induction over all histories; attribute-kind and "
+              "copy-resolution tables regenerated from the live classes with kernel-decided obligations; "
               "model/implementation correspondence on sharing graphs and manager histories",
     level_text="Theorems: copy_equal (same unfolding to every depth, nothing existing changes), copy_independent "
                "(owned cells of the copy are new, reachable cells of the original are old, for every heap conforming "
-               "to tables that satisfy copyWF), the two write-invisibility corollaries, and for the manager: "
-               "refinement to an ordered map, invariants over every history (distinct keys, one dimensionality, "
-               "ownership), set/assign store copies (frame theorems).  The attribute-kind and copy-resolution tables "
-               "are regenerated from populated live instances on every run and `copyWF` is re-decided by the kernel. "
-               "An independent oracle checks equality, sharing, write-through and public mutators on the real "
-               "objects and a value-semantics reference decides manager histories.",
+               "to tables that satisfy copyWF), the two write-invisibility corollaries, copy_total (copy succeeds), "
+               "and for the manager: refinement to an ordered map with OrderedDict re-set semantics, invariants over "
+               "every history (distinct keys, one dimensionality, ownership), None-key resolution, set/assign/copy "
+               "store copies (frame theorems).  The attribute-kind and copy-resolution tables are regenerated from "
+               "populated live instances on every run and `copyWF` is re-decided by the kernel; every sampled live "
+               "object graph is checked to conform to the table (hypothesis of the theorems).  An independent oracle "
+               "checks equality, sharing, write-through and public mutators on the real objects and a "
+               "value-semantics reference decides manager histories.",
     level_note="Trusted: Lean kernel; axioms propext/Classical.choice/Quot.sound; harness/extract_c06.py (object-graph "
                "encoding and table extraction), this harness, the driver's parser.  Python object identity and "
                "ndarray/sparse `.copy()` are modelled (a buffer's copy is a fresh buffer), not verified; the "
                "correspondence compares the model's predicted sharing graph with np.shares_memory / `is` on every case.",
     rule="Part A: one case = one populated object (class, dimension, landmark population, caches, trimming drawn at "
          "random); distinct = distinct (class, cell-graph shape); non-trivial = at least 2 mutable cells.  "
-         "Part B: one case = one history (<= 40 ops over <= 5 names incl. unicode and None, all shape classes); "
-         "distinct = distinct op sequence; non-trivial = at least one successful set followed by a mutation or copy",
+         "Part B: one case = one history (8..40 ops over 5 names incl. unicode, empty string and None, all shape "
+         "classes); distinct = distinct op sequence; non-trivial = at least one successful set followed by a "
+         "mutation or copy",
     partial=["public mutators are exercised on the real classes only (oracle); the model covers cell writes and "
              "allocation, of which every mutator is an instance",
-             "CachedPWA._iab (memo tuple of arrays, shared by Copyable.copy) is treated as outside the property's "
-             "quantifier for transforms (not a parameter array); checked behaviourally: apply() on either side after "
-             "the copy leaves the other's results unchanged",
+             "CachedPWA._iab (memo tuple of arrays, shared by Copyable.copy because tuples have no .copy) is treated "
+             "as outside the property's quantifier for transforms (not a parameter array; whitelisted like the "
+             "documented sharing); checked behaviourally: apply()/set_target on either side after the copy leaves "
+             "the other's results unchanged",
              "a shape's own copy inside the manager machine is abstracted to 'allocate an equal value' (justified "
-             "by part 1); LandmarkManager.copy is modelled in both parts"],
+             "by part 1); LandmarkManager.copy is modelled in both parts",
+             "the effect of _transform_inplace on the transformed manager itself is compared by the correspondence "
+             "and the reference oracle; the theorem proved for it is the frame (no other manager, no caller shape)",
+             "the model allocates a cell after computing its slots (the new object, the re-initialised dict of the "
+             "two deepening overrides); allocation order is not observable"],
     assumptions=["object graphs are acyclic (a cyclic graph makes Copyable.copy recurse forever; the model returns "
-                 "`fuel`)", "callables held by LazyList are opaque immutable values"],
+                 "`fuel`)", "callables held by LazyList are opaque immutable values",
+                 "error correspondence is by exception *type*: the four ValueError refusals of the manager are one "
+                 "class for the implementation diff (the model distinguishes them)"],
     design_ref="DESIGN.md section 6, C06; appendix 13 items 2-3")
 IMPORTS = ["MenpoModel.Props.C06"]
 THEOREMS = [
     "MenpoModel.C06.copy_equal",
     "MenpoModel.C06.copy_independent",
+    "MenpoModel.C06.copy_total",
+    "MenpoModel.C06.copy_succeeds",
+    "MenpoModel.C06.closed_of_closedB",
+    "MenpoModel.C06.ordered_of_orderedB",
     "MenpoModel.C06.writes_through_original_invisible_in_copy",
     "MenpoModel.C06.writes_through_copy_invisible_in_original",
     "MenpoModel.C06.deepHeap_of_tables",
@@ -444,13 +459,13 @@ def compare_model(ctx, reply, ent, rp, label):
         ctx.mismatch("copy", "model answers %r where the implementation copied a %s" % (reply, label), rp)
         return
     parts = reply.split()
-    flags = dict(p.split("=", 1) for p in parts[1:5])
-    model_ent = dict(p.split("=", 1) for p in parts[5:])
+    flags = dict(p.split("=", 1) for p in parts[1:6])
+    model_ent = dict(p.split("=", 1) for p in parts[6:])
     if flags.get("wt") != "1":
         ctx.mismatch("conforms", "a live %s does not conform to the regenerated attribute-kind table "
                                  "(hypothesis of copy_independent)" % label, rp)
-    if flags.get("closed") != "1":
-        ctx.mismatch("closed", "harness produced an unclosed heap", rp)
+    if flags.get("closed") != "1" or flags.get("ord") != "1":
+        ctx.mismatch("closed", "harness produced an unclosed / unordered heap", rp)
     if model_ent != ent:
         diff = sorted(set(model_ent.items()) ^ set(ent.items()))[:6]
         ctx.mismatch("sharing-graph", "model and implementation sharing graphs differ for %s: %r" % (label, diff),
